@@ -71,6 +71,12 @@ CHECKS = {
                      "result must equal photo cross section x jump share x yield x rate computed from the public ingredients; an error is accepted only where "
                      "the statement allows one, and a fully defined non-zero product must be returned.",
                 note="Differential oracle; E exactly on an edge and products that are exactly 0 (jump ratio 1) are don't-care points."),
+    "C06": dict(level="exploration", engine="ENUM", ref="4/C06",
+                technique="exhaustive enumeration of a covering formula set + NIST names x energy/angle/density grids against the mixture rule over public elemental functions",
+                text="All weighable single symbols, a covering set of binary/ternary/nested formulas, the NIST names and invalid names are driven through the 21 _CP "
+                     "functions and 4 refractive-index entry points on complete energy x angle x density grids; the expected value is the left-to-right sum of "
+                     "mass fraction x elemental function with the composition returned by the public parser / NIST lookup of the same build.",
+                note="Differential oracle (C07, C01, C02, C05 decide compositions and elemental values); refractive index constants derived from header macros, rel. 1e-6."),
 }
 NOT_YET = {}
 ALL = ["C%02d" % i for i in range(1, 21)]
